@@ -353,6 +353,7 @@ def run(ctx):
         if not abs(float(gl) - lat) * (A + h) <= 1e-3:
             ctx.violation("geodetic_lat is off by more than 1 m at the point",
                           {"signature": sig + ":lat", **base, "point": p.tolist(), "impl": float(gl), "spec": lat})
+    hangs = 0
     for i in range(ctx.n(400, 4000)):            # (3, n) arrays with NaN columns mixed in
         n = rng.randint(1, 12)
         geo = [rand_geodetic() for _ in range(n)]
@@ -365,6 +366,8 @@ def run(ctx):
             else:
                 pn[rng.randrange(3), j] = np.nan
         sig = "C14:geoarr:%d" % i
+        if hangs >= 2:
+            break                       # already reported twice; do not wait for every further time-out
         base = {"points": pn.tolist()}
         ctx.case(("geoarr", i, n, int(nanmask.sum())))
         try:
@@ -372,6 +375,7 @@ def run(ctx):
                 gl = np.asarray(geoloc.geodetic_lat(pn.copy()), dtype=float)
                 s = np.asarray(geoloc.subpoint(pn.copy()), dtype=float)
         except common.Timeout:
+            hangs += 1
             ctx.violation("geodetic_lat / subpoint did not terminate on an array%s" % (" with NaN entries" if nanmask.any() else ""),
                           {"signature": sig + ":hang", **base})
             continue
